@@ -58,8 +58,57 @@ def observe(payload):
     return {'cases': res}
 
 
+def observe_scale(case):
+    """a matrix far beyond what the model evaluates in reasonable time (more than 65 535 stored cells): compared cell by
+    cell with the dense matrix it stands for - the property's own oracle, no model involved"""
+    import numpy as np
+    import random
+    rng = random.Random(case['seed'])
+    R, C = case['R'], case['C']
+    dense = np.zeros((R, C), dtype=int)
+    row, col, data = [0], [], []
+    for r in range(R):
+        cs = [c for c in range(C) if (r * 31 + c * 17) % case['gap'] != 0]
+        rng.shuffle(cs)
+        for c in cs:
+            v = 1 + (r + 3 * c) % 5
+            dense[r, c] = v
+            col.append(c)
+            data.append(v)
+        row.append(len(col))
+    m = ImmutableCsrMatrix(row, col, data, (R, C), dtype=int)
+    bad = []
+    for r in range(R):
+        got = m[r]
+        if list(got) != list(dense[r]):
+            bad.append(['row', r])
+        for q in (0, 1, 3):
+            exp = sorted(int(c) for c in np.flatnonzero(dense[r] == q))
+            if sorted(int(c) for c in m.col_indices_of_val(r, q)) != exp:
+                bad.append(['col_indices_of_val', r, q])
+    for _ in range(4000):
+        r, c = rng.randrange(R), rng.randrange(C)
+        if m[r, c] != dense[r, c]:
+            bad.append(['cell', r, c])
+    b = CsrMatrixBuilder(shape=(R, C))
+    cells = [(r, c) for r in range(R - 3, R) for c in range(C)] + [(rng.randrange(R), rng.randrange(C)) for _ in range(3000)]
+    rng.shuffle(cells)
+    d2 = np.zeros((R, C), dtype=int)
+    for r, c in cells:
+        v = 1 + (r + c) % 4
+        b[r, c] = v
+        d2[r, c] = v
+    m2 = ImmutableCsrMatrix(b.row, b.col, b.data, b.shape, dtype=int)
+    for r in range(R):
+        if list(m2[r]) != list(d2[r]):
+            bad.append(['built-row', r])
+    return {'stored': len(col), 'mismatches': bad[:10], 'n_mismatches': len(bad)}
+
+
 def observe_case(case):
     res = []
+    if case['kind'] == 'scale':
+        return observe_scale(case)
     if True:
         dt = case['dtype']
         ty = DTYPES[dt][0]
